@@ -53,6 +53,8 @@ def features(case):
         f.append("relation")
     if case.get("penalties"):
         f.append("penalty")
+    if case.get("global_axis_order"):
+        f.append("global_axis_" + case["global_axis_order"])
     if any(d.get("global_megacomplex") for d in case["datasets"]):
         f.append("full_model")
     if any(case["megacomplexes"][m]["index_dependent"] for d in case["datasets"] for m in d["megacomplex"]):
